@@ -54,7 +54,8 @@ MkDisk(v, upb) ==
 Merge(old, new) == [x \in DOMAIN old |-> IF x \in DOMAIN new THEN new[x] ELSE old[x]]
 
 ApplyW(d, e) ==
-  CASE e.reg = "fat1" -> [d EXCEPT !.fat1 = Merge(@, FatFn(e.fat)), !.restok = @ /\ e.restok]
+  CASE e.reg = "fat1" -> [d EXCEPT !.fat1 = Merge(@, FatFn(e.fat)), !.restok = @ /\ e.restok,
+                                    !.blk = IF Len(e.up) = 0 THEN @ ELSE Merge(@, BlkFn(e.up))]
     [] e.reg = "fat2" -> [d EXCEPT !.fat2 = Merge(@, FatFn(e.fat)), !.restok = @ /\ e.restok]
     [] e.reg \in {"root", "data"} /\ e.trk -> [d EXCEPT !.blk = Merge(@, BlkFn(e.up))]
     [] e.reg = "info" -> [d EXCEPT !.info = e.info]
@@ -160,9 +161,12 @@ FatWriteOK(c, pd, d, e) ==
   IN /\ ~e.chgx /\ e.restok
      /\ \A x \in ToSet(e.chg) :
           /\ x \in DOMAIN cur /\ x \in DOMAIN new
-          /\ new[x].hi = cur[x].hi
-          /\ x \in Valid(pd.g)
-          /\ x \in AllowedFat(c, pd)
+          \* an entry of the second copy may also change because the copy is brought in line with the first
+          \* (the copies can differ after a failed call)
+          /\ \/ (e.reg = "fat2" /\ x \in DOMAIN d.fat1 /\ new[x] = d.fat1[x])
+             \/ /\ new[x].hi = cur[x].hi
+                /\ x \in Valid(pd.g)
+                /\ x \in AllowedFat(c, pd)
 
 \* 0-based index of block b inside the chain that starts at cluster c0 on medium d; -1 if not on it
 BlockPosInChain(d, c0, b) ==
@@ -359,7 +363,7 @@ StateChecks(op, obs, fateq) ==
     IN (IF AbsTree(d) = DiskView(dirs'[v]) THEN {}
         ELSE IF PrintT(<<"DIFF", hid, l, TreeDiff(AbsTree(d), DiskView(dirs'[v]))>>)
              THEN {<<"C02", "Refines", "medium does not hold what the history says:" \o op>>} ELSE {})
-     \cup (IF wf = "ok" \/ <<v, wf, Orphans(d)>> \in wfseen THEN {} ELSE {<<IF wf = "orphans" THEN "C05" ELSE "C03", "WellFormed", wf \o ":" \o op>>})
+     \cup (IF wf = "ok" \/ <<v, wf, Orphans(d)>> \in wfseen \/ (fltd /\ wf \in {"orphans", "pending-chain"}) THEN {} ELSE {<<IF wf = "orphans" THEN "C05" ELSE "C03", "WellFormed", wf \o ":" \o op>>})
      \cup (IF fltd \/ (FatCopiesEqual(d) /\ fateq) THEN {} ELSE {<<"C16", "FatCopiesEqual", op>>})
      \cup (IF \A i \in 1..Len(ofiles') : ofiles'[i].vol = v => PendingOK(d, ofiles'[i]) THEN {}
            ELSE {<<"C01", "PendingData", "data of an open file is not on its chain:" \o op>>})
@@ -626,16 +630,72 @@ TRetPanic ==
   /\ l' = l + 1
   /\ UNCHANGED <<lenient, hid, disk, disk0, pre, dur, minfo, fltd, wfseen, apiVars>>
 
-\* a faulted call (C11): it must report an error; afterwards the involved objects are re-read
-\* from the medium (their state after a failed call is not prescribed), everything else must be
-\* as the model says.  Implemented in FatTraceFault (EXTENDS this) to keep this module readable.
+\* ------------------------------------------------------------------ a faulted call (C11)
+\* A block-device call failed inside the call in flight.  The call must report an error (never
+\* success, never a panic).  What the failed call did to the object it was working on is not
+\* prescribed, so that object is re-read from the medium; everything else must be exactly what
+\* the model says (files not involved are intact) and no directory may hold a name twice.  The
+\* rest of the history - every handle used and closed, read-only calls retried - is then
+\* validated as usual against the re-synchronised model.
+WithoutName(lst, nm) == SelectSeq(lst, LAMBDA x : x.n # nm)
+ModelEntryOr(lst, x) == IF \E i \in 1..Len(lst) : lst[i].n = x.n THEN lst[CHOOSE i \in 1..Len(lst) : lst[i].n = x.n] ELSE x
+\* the listing of directory id after the failed call: the medium's order; the involved name from
+\* the medium, every other entry from the model (it carries the write-through data of open files)
+ResyncListing(d, mlst, id, nm) ==
+  LET al == AbsListing(d, id) IN [i \in 1..Len(al) |-> IF al[i].n = nm THEN al[i] ELSE ModelEntryOr(mlst, al[i])]
+UninvolvedOK(d, dv, id, nm) ==
+  /\ \A x \in DOMAIN dv : x \in GoodDirIds(d)
+  /\ \A x \in DOMAIN dv : DiskViewL(IF x = id THEN WithoutName(dv[x], nm) ELSE dv[x]) = (IF x = id THEN WithoutName(AbsListing(d, x), nm) ELSE AbsListing(d, x))
+NoDupNames(d) == \A id \in GoodDirIds(d) : NamesUnique(d, id)
+
 TRetFault ==
   /\ IsEv("Ret") /\ ~dead /\ call # NoCall /\ flt /\ Rec[l].r.k # "panic" /\ ~("panicked" \in DOMAIN call.a)
-  /\ viol' = Report(IF Rec[l].r.k = "err" THEN {} ELSE {<<"C11", "FaultReported", call.op \o " returned " \o Rec[l].r.k \o " although a device call failed">>})
-  /\ dead' = TRUE   \* continuation after a fault: see FatFault.tla
+  /\ LET e == Rec[l]  r == e.r  a == call.a  op == call.op  v == call.vol
+         fileop == op \in {"read", "write", "flush", "close_file", "seek_start", "seek_end", "seek_cur", "length", "offset", "eof"} /\ HasH(ofiles, a.f)
+         dirop == op \in {"open_file", "delete", "mkdir", "open_dir", "change_dir", "find"} /\ HasH(odirs, a.d) /\ a.nmok
+         f == IF fileop THEN RecOf(ofiles, a.f) ELSE [vol |-> 0, dir |-> 0, n |-> ""]
+         id == IF fileop THEN f.dir ELSE IF dirop THEN RecOf(odirs, a.d).id ELSE 0
+         nm == IF fileop THEN f.n ELSE IF dirop THEN a.nm ELSE ""
+         d == IF v # 0 THEN disk[v] ELSE disk[1]
+         reported == r.k = "err"
+         intact == v = 0 \/ UninvolvedOK(d, dirs[v], id, nm)
+         \* the involved directory after the call, re-read
+         lst1 == IF v # 0 /\ id \in DOMAIN dirs[v] /\ id \in GoodDirIds(d) THEN ResyncListing(d, dirs[v][id], id, nm) ELSE <<>>
+         \* a failed write: length / offset as the library reports them, data from the medium
+         o == IF fileop /\ \E j \in 1..Len(e.obs) : e.obs[j].h = a.f THEN e.obs[CHOOSE j \in 1..Len(e.obs) : e.obs[j].h = a.f] ELSE [h |-> -1, len |-> 0, off |-> 0]
+         heads == IF v # 0 THEN OrphanHeads(d) \ OrphanHeads(pre[v]) ELSE {}
+         st0 == IF fileop THEN FileStart(d, f) ELSE 0
+         \* a cluster allocated by the failed call belongs to the file only if data reached it
+         \* (otherwise it may be a lost cluster the library knows nothing about)
+         wanted == IF fileop /\ op = "write" /\ o.len > 0 THEN SubSeq(Overwrite(FileData(f), f.off, a.vals), 1, o.len) ELSE <<>>
+         cands == {x \in heads : o.len > 0 /\ DataOf(d, x, o.len) = wanted}
+         fc1 == IF ~fileop THEN 0 ELSE IF st0 # 0 THEN f.fc ELSE IF Cardinality(cands) = 1 THEN CHOOSE x \in cands : TRUE ELSE 0
+         st1 == IF st0 # 0 THEN st0 ELSE fc1
+         lst2 == IF fileop /\ op = "write" /\ o.h # -1 /\ o.len >= 0
+                 THEN [i \in 1..Len(lst1) |-> IF lst1[i].n = nm THEN [ModelEntryOr(dirs[v][id], lst1[i]) EXCEPT !.data = DataOf(d, st1, o.len), !.len = lst1[i].len, !.mt = lst1[i].mt] ELSE lst1[i]]
+                 ELSE IF fileop
+                 THEN [i \in 1..Len(lst1) |-> IF lst1[i].n = nm THEN [ModelEntryOr(dirs[v][id], lst1[i]) EXCEPT !.len = lst1[i].len, !.mt = lst1[i].mt] ELSE lst1[i]]
+                 ELSE lst1
+         \* a directory the failed mkdir may have created
+         newid == IF op = "mkdir" /\ \E i \in 1..Len(lst2) : lst2[i].n = nm /\ lst2[i].k = "dir" THEN lst2[CHOOSE i \in 1..Len(lst2) : lst2[i].n = nm].id ELSE 0
+         dirs1 == IF v = 0 \/ (lst1 = <<>> /\ ~(id \in DOMAIN dirs[v])) THEN dirs
+                  ELSE [dirs EXCEPT ![v] = [x \in (DOMAIN dirs[v]) \cup (IF newid # 0 THEN {newid} ELSE {}) |->
+                                               IF x = id THEN lst2 ELSE IF x = newid /\ newid \notin DOMAIN dirs[v] THEN AbsListing(d, newid) ELSE dirs[v][x]]]
+     IN /\ dirs' = dirs1
+        /\ ofiles' = IF op = "close_file" /\ fileop THEN DropAt(ofiles, IdxOf(ofiles, a.f))
+                     ELSE IF fileop /\ o.h # -1 /\ o.off >= 0
+                     THEN [ofiles EXCEPT ![IdxOf(ofiles, a.f)] = [@ EXCEPT !.off = o.off, !.fc = fc1, !.dirty = (@ \/ op = "write")]]
+                     ELSE ofiles
+        /\ UNCHANGED <<ovols, odirs, lim>>
+        /\ viol' = Report(
+               (IF reported THEN {} ELSE {<<"C11", "FaultReported", op \o " returned " \o r.k \o " although a block-device call failed inside it">>})
+          \cup (IF intact THEN {} ELSE {<<"C11", "UninvolvedIntact", "a file or directory not involved in the failed " \o op \o " changed on the medium">>})
+          \cup (IF v = 0 \/ NoDupNames(d) THEN {} ELSE {<<"C11", "NoDuplicateNames", "a directory holds a name twice after the failed " \o op>>}))
+        /\ dead' = ~intact
+        /\ dur' = IF v # 0 /\ nm # "" THEN [dur EXCEPT ![v] = {x \in @ : ~(x.dir = id /\ x.n = nm)}] ELSE dur
   /\ call' = NoCall /\ flt' = FALSE
   /\ l' = l + 1
-  /\ UNCHANGED <<lenient, hid, disk, disk0, pre, dur, minfo, fltd, wfseen, apiVars>>
+  /\ UNCHANGED <<lenient, hid, disk, disk0, pre, minfo, fltd, wfseen>>
 
 \* skipping the rest of a dead history
 TSkip ==
